@@ -93,6 +93,26 @@ def generate():
             else: factors += list(ps.factors)
         out.append(f'def cfg_normal_widths {sig} : List K :=\n  {lean_list(widths)}\n')
         out.append(f'def cfg_poisson_factors {sig} : List K :=\n  {lean_list(factors)}\n')
+        # ---- channel layout: three channels listed in non-alphabetical order with different bin counts, samples listed non-alphabetically
+        lay = {'channels': [
+            {'name': 'ZR', 'samples': [{'name': 'ttbar', 'data': ['z0', 'z1', 'z2'], 'modifiers': [ns('normfactor', 'mu')]},
+                                       {'name': 'qcd', 'data': ['y0', 'y1', 'y2'], 'modifiers': [ns('shapefactor', 'sfz')]}]},
+            {'name': 'AR', 'samples': [{'name': 'ttbar', 'data': ['a0'], 'modifiers': [ns('normfactor', 'mu')]}]},
+            {'name': 'MR', 'samples': [{'name': 'wjets', 'data': ['m0', 'm1'], 'modifiers': [ns('normfactor', 'mu'), ns('shapesys', 'ssm', ['e0', 'e1'])]}]}]}
+        sx.ORACLE.assumed = {}; sx.ORACLE.positive = {'z0', 'z1', 'z2', 'y0', 'y1', 'y2', 'a0', 'm0', 'm1', 'e0', 'e1'}; sx.ORACLE.prefix = []; sx.ORACLE.trace = []
+        m2 = pyhf.Model(symbolic(lay), poi_name='mu', validate=False)
+        c2 = m2.config
+        if sx.ORACLE.trace: raise RuntimeError('the layout construction branched on a symbolic yield')
+        declared = {ch['name']: len(ch['samples'][0]['data']) for ch in lay['channels']}
+        out.append('/-- the channel layout of a model whose specification lists ZR (3 bins), AR (1 bin), MR (2 bins) in this order -/')
+        out.append(f'def lay_declared : List (String × Nat) := [{", ".join(f"({q(n)}, {k})" for n, k in declared.items())}]\n')
+        out.append(f'def lay_channels : List String := [{", ".join(q(n) for n in c2.channels)}]\n')
+        out.append(f'def lay_samples : List String := [{", ".join(q(n) for n in c2.samples)}]\n')
+        out.append('def lay_channel_nbins : List (String × Nat) := [' + ', '.join(f'({q(n)}, {c2.channel_nbins[n]})' for n in c2.channels) + ']\n')
+        out.append('def lay_channel_slices : List (String × Nat × Nat) := [' + ', '.join(f'({q(n)}, {c2.channel_slices[n].start}, {c2.channel_slices[n].stop})' for n in c2.channels) + ']\n')
+        out.append(f'def lay_nmaindata : Nat := {c2.nmaindata}\n')
+        out.append('def lay_par_slices : List (String × Nat × Nat) := [' + ', '.join(f'({q(n)}, {c2.par_slice(n).start}, {c2.par_slice(n).stop})' for n in c2.par_order) + ']\n')
+        out.append(f'def lay_npars : Nat := {c2.npars}\n')
     finally:
         mgr.this.state['default'] = sd; mgr.this.state['current'] = sc
     out.append('end\nend Pyhf.Gen\n')
